@@ -137,7 +137,7 @@ pub fn c10_strategy() -> impl Strategy<Value = C10Spec> {
 }
 
 /// The case a spec stands for; config variations are irrelevant to C10 and switched off.
-fn case_of(s: &C10Spec, ex: &Exclusions) -> cases::Case {
+pub fn case_of(s: &C10Spec, ex: &Exclusions) -> cases::Case {
     let (tier, mut cfg) = cases::tier_config(s.spec.variant as usize, ex);
     cfg.config_space = false;
     let mut project = gen_project::build_project(s.spec.tape.clone(), &cfg);
